@@ -193,6 +193,15 @@ def cases(tier):
     B2.append(("if_true", ifsrc, loop, {"flag": True}))
     other = Spec(("x", "y", "z"), ("e",), ("a", "b"), ("x = a*x[-1] + b + e", "y = 0", "z = x[-1] - y[+1]"))
     B2.append(("if_false", ifsrc, other, {"flag": False}))
+    # an !if without !else followed by a sibling !if ... !else ... !end
+    ifsib = ("!transition-variables\n    x, y, z\n!transition-shocks\n    e\n!parameters\n    a, b\n!transition-equations\n"
+             "    x = a*x[-1] + b + e;\n    !if flag !then\n    y = a*y[-1] + b + e;\n    !end\n"
+             "    !if other !then\n    z = x[-1] - y[+1];\n    !else\n    z = 0;\n    !end\n    !if not flag !then\n    y = 0;\n    !end\n")
+    B2.append(("if_without_else_then_sibling_if_true_true", ifsib, loop, {"flag": True, "other": True}))
+    B2.append(("if_without_else_then_sibling_if_false_true", ifsib,
+               Spec(("x", "y", "z"), ("e",), ("a", "b"), ("x = a*x[-1] + b + e", "z = x[-1] - y[+1]", "y = 0")), {"flag": False, "other": True}))
+    B2.append(("if_without_else_then_sibling_if_true_false", ifsib,
+               Spec(("x", "y", "z"), ("e",), ("a", "b"), ("x = a*x[-1] + b + e", "y = a*y[-1] + b + e", "z = 0")), {"flag": True, "other": False}))
     B2.append(("if_expression", ifsrc.replace("!if flag", "!if K > 1 and name == 'q'"), loop, {"K": 2, "name": "q"}))
     ctx = Spec(("x", "y", "z"), ("e",), ("a", "b"), ("x = a*x[-1] + b + e", "y = a*y[-3] + b + e", "z = x[-1] - y[+1]"))
     B2.append(("contextual_expression", loop_src.replace("!for ?v = x, y !do\n        ?v = a*?v[-1] + b + e;\n    !end",
@@ -216,6 +225,14 @@ def cases(tier):
     nested = ("!transition-variables\n    x, y, z\n!transition-shocks\n    e\n!parameters\n    a, b\n!transition-equations\n"
               "    !for ?v = x, y !do\n      !if '?v' == 'x' !then\n        ?v = a*?v[-1] + b + e;\n      !else\n        ?v = a*?v[-1] + b + e;\n      !end\n    !end\n    z = x[-1] - y[+1];\n")
     B2.append(("nested_for_if", nested, loop, None))
+    # log status of every loggable kind (transition, measurement and exogenous variables), three equivalent spellings
+    import copy
+    fullx = copy.deepcopy(full)
+    fullx.logvars = {"y", "w", "ox"}
+    B2.append(("log_exogenous_and_measurement", render_plain(fullx), fullx, None))
+    B2.append(("log_exogenous_and_measurement_all_but", render_plain(fullx, log_block="!log-variables !all-but\n    x, z"), fullx, None))
+    B2.append(("log_exogenous_and_measurement_list", render_plain(fullx, log_block="!log-variables\n    !list(`lg)")
+               .replace("!exogenous-variables\n    w", "!exogenous-variables\n    w`lg").replace(" y, z\n", " y`lg, z\n").replace("ox\n", "ox`lg\n", 1), fullx, None))
     for cid, src, ctxt in B:
         out.append((f"syntax:{cid}", src, full, ctxt, "equal"))
     for cid, src, sp, ctxt in B2:
